@@ -44,6 +44,7 @@ def main():
         raise implutil.CaseTimeout()
 
     signal.signal(signal.SIGALRM, on_alarm)
+    done = []
     with open(inp) as f, open(outp, "w") as g:
         for line in f:
             c = json.loads(line)
@@ -66,13 +67,35 @@ def main():
                 rec["crash"] = "harness error: " + traceback.format_exc()[-800:]
             g.write(json.dumps(rec) + "\n")
             g.flush()
+            if "crash" not in rec:
+                done.append((c, rec.get("sx_out"), (rec.get("oracle") or {}).get("ok")))
+        # second pass: the library keeps no state between calls, so evaluating a case again later in the same process (after
+        # all the other cases, in the opposite order) must give the same result.  Differences are appended as override records.
+        n2 = int(os.environ.get("VERIF_SECOND_PASS", "250"))
+        if n2 > 0 and done and not getattr(mod, "NO_SECOND_PASS", False):
+            step = max(1, len(done) // n2)
+            for c, out1, ok1 in reversed(done[::step][:n2]):
+                try:
+                    signal.setitimer(signal.ITIMER_REAL, limit)
+                    try:
+                        r = mod.impl(c)
+                    finally:
+                        signal.setitimer(signal.ITIMER_REAL, 0)
+                    out2 = enc.dumps(r["sx_out"]) if r.get("sx_out") is not None else None
+                    ok2 = (r.get("oracle") or {}).get("ok")
+                    if out2 != out1 or ok2 != ok1:
+                        g.write(json.dumps({"id": c["id"], "second_pass": {"sx_out": out2, "oracle": r.get("oracle"),
+                                                                           "summary": r.get("summary")}}) + "\n")
+                        g.flush()
+                except BaseException:  # noqa: BLE001 - the first pass already reported crashes of this case
+                    pass
     if cov is not None:
         cov.stop()
         res = {}
         for f in cov.get_data().measured_files():
             try:
                 _, stmts, _, missing, _ = cov.analysis2(f)
-                res[os.path.relpath(f, os.path.realpath(repo))] = [len(stmts), len(missing)]
+                res[os.path.relpath(f, os.path.realpath(repo))] = [len(stmts), len(missing), list(missing)]
             except Exception:
                 pass
         with open(os.environ["VERIF_COV_OUT"], "w") as h:
